@@ -9,30 +9,35 @@ import pipeline as pl
 TYPEGEN_MODS = ['BigInt.tla', 'Bits.tla', 'Asn1Type.tla', 'Asn1Value.tla', 'TypeGen.tla']
 
 
-def typegen_cfg(max_depth, rich, tagdefs, extra_inv=True):
-    return ('SPECIFICATION Spec\nCONSTANTS\n  MaxDepth = %d\n  Rich = %s\n  TagDefs = {%s}\n'
+def typegen_cfg(max_depth, rich, tagdefs, extra_inv=True, big=False):
+    return ('SPECIFICATION Spec\nCONSTANTS\n  Big = %s\n  MaxDepth = %d\n  Rich = %s\n  TagDefs = {%s}\n'
             'INVARIANT Emit\n%sCHECK_DEADLOCK FALSE\n' % (
-                max_depth, 'TRUE' if rich else 'FALSE', ', '.join('"%s"' % t for t in tagdefs),
+                'TRUE' if big else 'FALSE', max_depth, 'TRUE' if rich else 'FALSE', ', '.join('"%s"' % t for t in tagdefs),
                 'INVARIANT ValuesAdmitted\n' if extra_inv else ''))
 
 
 def generate_cases(run, tier):
     """Binding A universe: BFS over TypeGen + simulation for deeper nestings."""
-    if tier == 'dev':
+    if tier == 'big':
+        bfs = [(0, False, ['E'], True)]
+        sim = None
+    elif tier == 'dev':
         bfs = [(0, True, ['E'])]
         sim = None
     elif tier == 'dev1':
         bfs = [(1, False, ['A', 'I'])]
         sim = None
     elif tier == 'quick':
-        bfs = [(1, False, ['E', 'A'])]
+        bfs = [(1, False, ['E', 'A'], True)]
         sim = ('num=150', 4, ['I'])
     else:
-        bfs = [(2, False, ['E', 'I', 'A']), (1, True, ['E', 'A'])]
+        bfs = [(2, False, ['E', 'I', 'A']), (1, True, ['E', 'A'], True)]
         sim = ('num=3000', 6, ['E', 'I', 'A'])
     cases = []
-    for n, (d, rich, tds) in enumerate(bfs):
-        out, res = pl.tlc_generate(run, 'TypeGen', typegen_cfg(d, rich, tds), 'gen%d.ndjson' % n,
+    for n, b in enumerate(bfs):
+        d, rich, tds = b[:3]
+        big = len(b) > 3 and b[3]
+        out, res = pl.tlc_generate(run, 'TypeGen', typegen_cfg(d, rich, tds, big=big), 'gen%d.ndjson' % n,
                                    workers=8, what='TypeGen BFS depth<=%d rich=%s tagdefs=%s' % (d, rich, tds))
         cases += pl.dedup_cases(out, 'g%d' % n)
     if sim:
